@@ -4,6 +4,8 @@ package x509
 
 import (
 	"bytes"
+	"encoding/pem"
+	"errors"
 
 	vr "github.com/zmap/zcrypto/internal/verifrt"
 )
@@ -140,4 +142,71 @@ func VerifH_C08_find_verified_parents() {
 	np, _, _ := nilPool.findVerifiedParents(child)
 	vr.Assert(len(np) == 0, "a nil pool has no parents")
 	vr.Cover("done")
+}
+
+// C08 (c): AppendCertsFromPEM adds exactly the parseable CERTIFICATE blocks without
+// headers, in input order, and reports whether it added any. PEM framing and
+// certificate parsing are environment here: pem.Decode reads a toy framing (three
+// bytes per block: kind, has-headers flag, certificate id) and ParseCertificate
+// returns a model certificate whose fingerprint and subject are functions of the
+// block body, or fails when the body's top bit is set.
+// verif: covers=some-added,none-added
+func VerifH_C08_append_certs_from_pem() {
+	vr.Stub("encoding/pem.Decode", func(data []byte) (*pem.Block, []byte) {
+		if len(data) < 3 {
+			return nil, data
+		}
+		b := &pem.Block{Type: "CERTIFICATE", Bytes: []byte{data[2]}}
+		if data[0]&1 == 1 {
+			b.Type = "X509 CRL"
+		}
+		if data[1]&1 == 1 {
+			b.Headers = map[string]string{"Proc-Type": "4,ENCRYPTED"}
+		}
+		return b, data[3:]
+	})
+	vr.Stub("github.com/zmap/zcrypto/x509.ParseCertificate", func(der []byte) (*Certificate, error) {
+		if der[0]&0x80 != 0 {
+			return nil, errors.New("model: malformed certificate")
+		}
+		return &Certificate{Raw: der, FingerprintSHA256: []byte{der[0] & 3}, RawSubject: []byte{der[0] & 4}}, nil
+	})
+	blocks := vr.Int("blocks", 0, 3)
+	if vr.Tier() == 1 {
+		blocks = vr.Int("blocks-t", 0, 4)
+	}
+	input := vr.Bytes("pem", 3*blocks)
+	trailing := vr.Int("trailing", 0, 2) // bytes after the last block that do not form one
+	input = append(input, make([]byte, trailing)...)
+
+	p := NewCertPool()
+	ok := p.AppendCertsFromPEM(input)
+
+	var wantFP [][]byte
+	for i := 0; i < blocks; i++ {
+		kind, hdr, id := input[3*i], input[3*i+1], input[3*i+2]
+		if kind&1 == 1 || hdr&1 == 1 || id&0x80 != 0 {
+			continue
+		}
+		fp := []byte{id & 3}
+		dup := false
+		for _, f := range wantFP {
+			dup = dup || bytes.Equal(f, fp)
+		}
+		if !dup {
+			wantFP = append(wantFP, fp)
+		}
+	}
+	got := p.Certificates()
+	vr.Assert(p.Size() == len(wantFP) && len(got) == len(wantFP), "the pool holds exactly the distinct parseable CERTIFICATE blocks")
+	for i := range wantFP {
+		vr.Assert(bytes.Equal(got[i].FingerprintSHA256, wantFP[i]), "in input order")
+		vr.Assert(p.Contains(got[i]), "and Contains reports each")
+	}
+	vr.Assert(ok == (len(wantFP) > 0), "the result says whether any certificate was added")
+	if ok {
+		vr.Cover("some-added")
+	} else {
+		vr.Cover("none-added")
+	}
 }
